@@ -80,7 +80,11 @@ type jarCookie struct {
 	// Max-Age. RFC 6265 5.3: Max-Age has precedence, so the specification ignores it.
 	AlsoExpires int `json:"also_expires_rel_s,omitempty"`
 	// Huge (Max-Age only): Max-Age=9999999999 - far beyond any history, the cookie never expires here
-	Huge        bool   `json:"max_age_huge,omitempty"`
+	Huge bool `json:"max_age_huge,omitempty"`
+	// Shape of the Set-Cookie line (responses): bit 1 HttpOnly and bit 2 Secure directly after the
+	// value (before Path / Max-Age / Expires), bit 4 HttpOnly at the end, bit 8 trailing ";",
+	// bit 16 attribute names in mixed case. Attribute order and case carry no meaning.
+	Shape       int    `json:"line_shape,omitempty"`
 	MaxAgeFirst bool   `json:"max_age_before_expires,omitempty"`
 	Delete      string `json:"delete,omitempty"` // "max-age-0" | "past-expires" (responses only)
 }
@@ -150,7 +154,7 @@ func (s *jarSpec) put(w *jarWrite) {
 	s.ever[key] = true
 	if old := s.live[key]; old != nil {
 		if w.ck.Delete != "" {
-			s.gone[old.w.ck.Value] = "server-deleted:" + w.ck.Delete
+			s.gone[old.w.ck.Value] = "server-deleted:" + w.ck.Delete + shapeClass(w.ck)
 		} else {
 			s.gone[old.w.ck.Value] = "superseded"
 		}
@@ -175,6 +179,14 @@ func (s *jarSpec) caseTwin(w *jarWrite) bool {
 		}
 	}
 	return false
+}
+
+// shapeClass: the deleting Set-Cookie had a flag attribute (no "=") before its Max-Age / Expires.
+func shapeClass(ck jarCookie) string {
+	if ck.Shape&3 != 0 {
+		return "|flag-attribute-first"
+	}
+	return ""
 }
 
 func (s *jarSpec) release() {
@@ -504,6 +516,9 @@ func genJarCookie(r *gen.Rand, viaResponse bool, pathless bool, reqPath string) 
 	if viaResponse && ck.ExpKind == expMaxAge && r.Chance(1, 6) {
 		ck.Huge = true
 	}
+	if viaResponse && r.Chance(1, 2) {
+		ck.Shape = r.Intn(32)
+	}
 	if viaResponse && (ck.ExpKind == expMaxAge || ck.Delete == "max-age-0") && r.Chance(1, 2) {
 		// both attributes, all four combinations (Expires past / future x Max-Age <= 0 / > 0)
 		ck.AlsoExpires = gen.Pick(r, []int{-3, -1, 2, 6})
@@ -684,6 +699,12 @@ func (je *jarEngine) runHistory(c *ev.Case, reuse bool, ops []jarOp) {
 				}
 				w := &jarWrite{id: je.nextID, op: i, host: setter, hostname: hostName(setter), ck: *ck, via: "response", at: now(), redirect: op.Target != ""}
 				line := ck.Name + "=" + ck.Value
+				if ck.Shape&1 != 0 {
+					line += "; HttpOnly"
+				}
+				if ck.Shape&2 != 0 {
+					line += "; Secure"
+				}
 				if ck.Path != "" {
 					line += "; Path=" + ck.Path
 				}
@@ -713,6 +734,15 @@ func (je *jarEngine) runHistory(c *ev.Case, reuse bool, ops []jarOp) {
 				} else {
 					line += also + maxAge
 				}
+				if ck.Shape&4 != 0 {
+					line += "; HttpOnly"
+				}
+				if ck.Shape&8 != 0 {
+					line += ";"
+				}
+				if ck.Shape&16 != 0 {
+					line = strings.NewReplacer("; Max-Age=", "; max-AGE=", "; Expires=", "; EXPIRES=", "; Path=", "; path=", "; HttpOnly", "; httponly", "; Secure", "; SECURE").Replace(line)
+				}
 				lines = append(lines, line)
 				ws = append(ws, w)
 			}
@@ -734,7 +764,7 @@ func (je *jarEngine) runHistory(c *ev.Case, reuse bool, ops []jarOp) {
 			}
 			negMaxAge := false
 			for _, l := range lines {
-				if strings.Contains(l, "Max-Age=-1") {
+				if strings.Contains(strings.ToLower(l), "max-age=-1") {
 					negMaxAge = true
 				}
 			}
